@@ -14,6 +14,7 @@ import (
 	"hash/crc32"
 	"sort"
 	"strings"
+	"time"
 
 	tmcons "github.com/tendermint/tendermint/proto/tendermint/consensus"
 )
@@ -35,7 +36,8 @@ var stNames = []string{"present", "lost-in-crash", "damaged-by-flip", "file-disc
 
 type rec struct {
 	Idx    int
-	End    bool // EndHeightMessage, else EventDataRoundState
+	End    bool // EndHeightMessage, else EventDataRoundState (or, with Part, msgInfo{BlockPartMessage})
+	Part   bool // msgInfo{BlockPartMessage{Height: H, Round: R, Part{Bytes: Step}}}
 	H      int64
 	R      int32
 	Step   string
@@ -52,6 +54,9 @@ type rec struct {
 
 func (r *rec) desc() string {
 	k := fmt.Sprintf("RoundState{id=%d,round=%d,steplen=%d}", r.H, r.R, len(r.Step))
+	if r.Part {
+		k = fmt.Sprintf("MsgInfo{BlockPart{id=%d,round=%d,bytes=%d}}", r.H, r.R, len(r.Step))
+	}
 	if r.End {
 		k = fmt.Sprintf("EndHeight{%d}", r.H)
 		if r.Auto {
@@ -87,6 +92,8 @@ type model struct {
 	NextH      int64
 	Cycle      int
 	Gone       map[string]bool // names of files discarded by the total-size limit
+	FlushEvery time.Duration   // BaseWAL periodic flush interval (0: one hour, i.e. never)
+	AckedLost  []int           // acknowledged records a power-loss image does not contain
 	Log        []string        // human readable history for witnesses
 }
 
@@ -127,6 +134,7 @@ func (m *model) clone() *model {
 		n.Files[i] = &c
 	}
 	n.Log = append([]string{}, m.Log...)
+	n.AckedLost = append([]int{}, m.AckedLost...)
 	n.Gone = map[string]bool{}
 	for k := range m.Gone {
 		n.Gone[k] = true
@@ -138,6 +146,7 @@ func (m *model) clone() *model {
 
 type canon struct {
 	End    bool
+	Part   bool
 	H      int64
 	R      int32
 	Step   string
@@ -171,10 +180,31 @@ func decodeData(data []byte) (canon, bool) {
 	switch s := pb.Msg.Sum.(type) {
 	case *tmcons.WALMessage_EndHeight:
 		c.End, c.H = true, s.EndHeight.Height
+	default:
+		return canonOfProto(pb.Msg, c.TimeNs)
+	}
+	return c, true
+}
+
+// canonOfProto covers the kinds the harness writes.
+func canonOfProto(w *tmcons.WALMessage, timeNs int64) (canon, bool) {
+	c := canon{TimeNs: timeNs}
+	if w == nil {
+		return c, false
+	}
+	switch s := w.Sum.(type) {
+	case *tmcons.WALMessage_EndHeight:
+		c.End, c.H = true, s.EndHeight.Height
 	case *tmcons.WALMessage_EventDataRoundState:
 		c.H, c.R, c.Step = s.EventDataRoundState.Height, s.EventDataRoundState.Round, s.EventDataRoundState.Step
+	case *tmcons.WALMessage_MsgInfo:
+		bp, ok := s.MsgInfo.Msg.Sum.(*tmcons.Message_BlockPart)
+		if !ok || bp.BlockPart == nil {
+			return c, false
+		}
+		c.Part, c.H, c.R, c.Step = true, bp.BlockPart.Height, bp.BlockPart.Round, string(bp.BlockPart.Part.Bytes)
 	default:
-		return canon{}, false
+		return c, false
 	}
 	return c, true
 }
@@ -201,7 +231,7 @@ func cleanPrefix(b []byte) (int64, []canon, []int64) {
 }
 
 func (r *rec) sameMsg(c canon) bool {
-	return r.End == c.End && r.H == c.H && r.R == c.R && r.Step == c.Step
+	return r.End == c.End && r.Part == c.Part && r.H == c.H && r.R == c.R && r.Step == c.Step
 }
 
 func (r *rec) matches(c canon) bool {
@@ -270,6 +300,11 @@ type cutPlan struct {
 	FlipAt           int64  `json:"flip_at"`
 	FlipMask         byte   `json:"flip_mask,omitempty"`
 	SyncedCorruption bool   `json:"synced_corruption,omitempty"`
+	// PowerLoss: every file (rotated ones too) keeps only the prefix that the
+	// autofile.synced point reported as fsynced; Garble: the bytes behind it
+	// stay but are overwritten with garbage instead of being dropped.
+	PowerLoss bool `json:"power_loss,omitempty"`
+	Garble    bool `json:"garble,omitempty"`
 }
 
 // applyCut returns the model and the directory content after the crash.
@@ -278,6 +313,41 @@ func applyCut(m *model, snap snapshot, p cutPlan) (*model, snapshot) {
 	out := snapshot{}
 	for k, v := range snap {
 		out[k] = append([]byte{}, v...)
+	}
+	if p.PowerLoss {
+		n.AckedLost = nil
+		for _, f := range n.Files {
+			b := out[f.Name]
+			keep := f.Synced
+			if keep > int64(len(b)) {
+				keep = int64(len(b))
+			}
+			if p.Garble {
+				for i := keep; i < int64(len(b)); i++ {
+					b[i] = byte(37*i + 11) // no frame survives: the CRC fields are overwritten too
+				}
+			} else {
+				b = b[:keep]
+			}
+			out[f.Name] = b
+			for _, i := range f.Recs {
+				r := n.J[i]
+				if r.State == stPresent && (r.Len < 0 || r.Off+r.Len > keep) {
+					r.State = stLostCut
+					if r.Acked {
+						n.AckedLost = append(n.AckedLost, r.Idx)
+					}
+				}
+			}
+			f.Size = int64(len(b))
+			if f.Name == headName {
+				f.Logical = f.Size
+			}
+			f.Synced = f.Size
+		}
+		n.logf("POWER LOSS cycle=%d: every file cut to its fsynced prefix (garble=%v)", n.Cycle, p.Garble)
+		n.Cycle++
+		return n, out
 	}
 	h := n.head()
 	hb := out[headName]
